@@ -11,6 +11,9 @@ import (
 const modulePath = "github.com/TheManticoreProject/Manticore"
 
 // packages whose function bodies may be inlined (symbolically executed) when no contract/intrinsic exists
+// declining: intrinsic models that may return nil to hand the call back to the generic treatment.
+var declining = map[string]bool{}
+
 var inlineStdlib = map[string]bool{
 	"encoding/binary":                true,
 	"crypto/subtle":                  true,
@@ -210,8 +213,17 @@ func (e *Exec) invokeFn(st *State, fr *Frame, fn *ssa.Function, args []Val, bind
 		return []callRes{{st, nil}} // initialisers of imported packages are evaluated lazily, on first access to their globals
 	}
 	if h, ok := intrinsics[name]; ok {
-		e.UsedIntrinsics[name] = true
-		return h(e, st, fr, args, in, rt)
+		if declining[name] {
+			// a model that only covers some uses (e.g. bytes.Buffer as an append-only accumulator): when it
+			// declines (nil), the call is treated like any other external call
+			if rs := h(e, st, fr, args, in, rt); rs != nil {
+				e.UsedIntrinsics[name] = true
+				return rs
+			}
+		} else {
+			e.UsedIntrinsics[name] = true
+			return h(e, st, fr, args, in, rt)
+		}
 	}
 	// synthetic wrappers (promoted methods, bound methods, thunks) are always expanded
 	if fn.Synthetic == "" || strings.HasPrefix(fn.Synthetic, "instance of") {
